@@ -1433,6 +1433,7 @@ def _inherited_loader_gaps(prog):
         n += 1
         restored = set()
         called = set()
+        wildcard = False
         for c, g in chain:
             for x in ast.walk(g):
                 if isinstance(x, ast.Assign):
@@ -1443,6 +1444,25 @@ def _inherited_loader_gaps(prog):
                     called.add(x.func.attr)
                 if isinstance(x, ast.Call) and unparse(x.func) == 'setattr' and len(x.args) >= 2 and isinstance(x.args[1], ast.Constant):
                     restored.add(x.args[1].value)
+                elif isinstance(x, ast.Call) and unparse(x.func) == 'setattr' and len(x.args) >= 2:
+                    # setattr(obj, name, ..) in `for name in cls._TABLE`: a class-level literal table
+                    names_ = None
+                    if isinstance(x.args[1], ast.Name):
+                        for lp in ast.walk(g):
+                            if isinstance(lp, ast.For) and isinstance(lp.target, ast.Name) and \
+                                    lp.target.id == x.args[1].id and isinstance(lp.iter, ast.Attribute):
+                                for k in ci.mro:
+                                    for st_ in k.node.body:
+                                        if isinstance(st_, ast.Assign) and unparse(
+                                                st_.targets[0]) == lp.iter.attr and isinstance(
+                                                    st_.value, (ast.Tuple, ast.List)) and all(
+                                                        isinstance(e, ast.Constant)
+                                                        for e in st_.value.elts):
+                                            names_ = [e.value for e in st_.value.elts]
+                    if names_ is None:
+                        wildcard = True   # attribute names computed at run time: not decidable
+                    else:
+                        restored.update(names_)
         # attributes assigned by methods / property setters run on obj (closure depth 2)
         todo = list(called) + [a for a in restored]
         seen = set()
@@ -1484,7 +1504,7 @@ def _inherited_loader_gaps(prog):
             for x in ast.walk(f):
                 if is_self_attr(x) and isinstance(x.ctx, ast.Load): read_elsewhere.add(x.attr)
         miss = sorted((own - restored - base_bound) & read_elsewhere)
-        if miss:
+        if miss and not wildcard:
             hits.append((ci, miss, chain[0][0].name))
     return n, hits
 
